@@ -187,19 +187,38 @@ func Run(t *testing.T, secs []Section, start func(cfg Cfg) (step func(op []strin
 		w = bufio.NewWriter(os.Stdout)
 	}
 	defer w.Flush()
+	// journal: what is ABOUT to be executed, written unbuffered, so that after a crash of the process (a fatal
+	// error or a panic on another goroutine of the code under test, a hang ended by -test.timeout) the check
+	// knows the section and the op sequence that the implementation did not survive and can replay it alone.
+	var j *os.File
+	if p := os.Getenv("VERIF_TRACE_OUT"); p != "" {
+		j, _ = os.Create(p + ".journal")
+	}
+	jw := func(s string) {
+		if j != nil {
+			j.WriteString(s + "\n")
+		}
+	}
+	if j != nil {
+		defer j.Close()
+	}
 	nops := 0
 	for _, s := range secs {
 		fmt.Fprintf(w, "begin %s\n", s.Cfg)
+		jw("begin " + s.Cfg)
 		step, done := start(ParseCfg(s.Cfg))
 		for _, op := range s.Ops {
+			jw(op)
 			obs := safeStep(step, strings.Fields(op))
 			fmt.Fprintf(w, "%s => %s\n", op, obs)
 			nops++
 		}
 		if done != nil {
+			jw("done")
 			done()
 		}
 		fmt.Fprintf(w, "end\n")
+		jw("end")
 	}
 	t.Logf("verifh: %d sections, %d ops", len(secs), nops)
 }
